@@ -387,6 +387,7 @@ type SpecParam struct {
 }
 
 type SpecFunc struct {
+	Pkg    string // declaring package (types in the signature resolve there)
 	Name   string
 	Params []SpecParam
 	Result string
@@ -395,6 +396,7 @@ type SpecFunc struct {
 }
 
 type Axiom struct {
+	Pkg      string
 	Name     string
 	Vars     []SpecParam
 	Triggers []SExpr // call patterns
@@ -539,7 +541,7 @@ func (cs *ContractSet) ParseContractText(pkgPath, file, text string) error {
 				return errf(err)
 			}
 			tail := strings.TrimSpace(rc.rest[j+1:])
-			sf := &SpecFunc{Name: name, Params: params, Src: rc.rest}
+			sf := &SpecFunc{Pkg: pkgPath, Name: name, Params: params, Src: rc.rest}
 			if rc.kw == "spec" {
 				k := strings.Index(tail, "=")
 				if k < 0 {
@@ -580,7 +582,7 @@ func (cs *ContractSet) ParseContractText(pkgPath, file, text string) error {
 				if len(parts) != 2 {
 					return errf(fmt.Errorf("axiom needs ':: triggers :: body'"))
 				}
-				ax := &Axiom{Name: name, Vars: vars, Src: rc.rest}
+				ax := &Axiom{Pkg: pkgPath, Name: name, Vars: vars, Src: rc.rest}
 				for _, ts := range splitTop(parts[0]) {
 					te, err := ParseSpecExpr(ts)
 					if err != nil {
@@ -824,11 +826,16 @@ func splitTop(s string) []string {
 	return out
 }
 
-// AllProps: the properties a clause without its own tag belongs to (function props plus sweep props).
+// AllProps: the properties a clause without its own tag belongs to: the function's props, or, for
+// functions that are only swept, the sweep property.
 func (c *FuncContract) AllProps() []string {
 	seen := map[string]bool{}
 	var out []string
-	for _, p := range append(append([]string{}, c.Props...), c.Extra["sweep"]...) {
+	src := c.Props
+	if len(src) == 0 {
+		src = c.Extra["sweep"]
+	}
+	for _, p := range src {
 		if len(p) >= 3 && p[0] == 'C' && !seen[p] {
 			seen[p] = true
 			out = append(out, p)
